@@ -428,12 +428,12 @@ def handle (st : St) (line : String) : St × String :=
     match secsArgs.mapM parseSec with
     | some l =>
       if l.length ≠ 6 then "bad-op" else
-      let idx (s : Build.Sec) : Nat := match s with | .lua => 0 | .gfx => 1 | .gff => 2 | .map => 3 | .sfx => 4 | .music => 5
+      let idx (s : Build.Sec) : Nat := match s with | .lua => 0 | .gfx => 1 | .gff => 2 | .map => 3 | .sfx => 4 | .music => 5 | .label => 6
       let args : Build.Sec → Build.SecArg := fun s => (l.getD (idx s) ({}, ⟨false, false, false, fun _ => []⟩)).1
       -- file ids are per section here: file f of section s
       let files : Nat → Build.FileInfo := fun f => ((l.find? fun p => p.1.file == some f).map (·.2)).getD ⟨false, false, false, fun _ => []⟩
       match Build.doBuild (oe == "1") args files (fun _ => [69]) (if ox == "1" then some (fun _ => [79]) else none) with
-      | .ok r => "ok " ++ " ".intercalate (Build.secs.map fun s => String.ofList ((r s).map fun b => Char.ofNat b.toNat))
+      | .ok r => "ok " ++ " ".intercalate ((Build.secs ++ [Build.Sec.label]).map fun (s : Build.Sec) => String.ofList ((r s).map fun b => Char.ofNat b.toNat))
       | .error e => showErr e
     | none => "bad-op"
   | ["normpath", h] => (parseHex h).elim "bad-op" fun d => "ok " ++ showHex (pathBytes (Path.normpath (Inc.bytesToPath d)))
